@@ -346,15 +346,15 @@ def build(spec, name="c11", op_cache=None):
                 continue
             key = None
             if op_cache is not None:
-                key = json.dumps([op["cls"], op.get("pars", []), op.get("kw", {}), bool(op.get("dagger"))], sort_keys=True)
+                key = json.dumps([op["cls"], op.get("pars", []), op.get("kw", {})], sort_keys=True)
             if key is not None and key in op_cache:
                 o = op_cache[key]
             else:
                 o = getattr(ops, op["cls"])(*[_param(p) for p in op.get("pars", [])], **op.get("kw", {}))
-                if op.get("dagger"):
-                    o = o.H
                 if key is not None:
                     op_cache[key] = o
+            if op.get("dagger"):
+                o = o.H             # `g = Gate(..)` once, `g | ..` and `g.H | ..`: the copy shares the parameter list
             regs = [q[i] for i in op["regs"]]
             o | (regs if len(regs) > 1 else regs[0])
     return prog, list(prog.circuit)
